@@ -635,11 +635,12 @@ func (g *tgen) stmt(depth int) (js_ast.Stmt, string) {
 func tieClassifier(r *Rng, st *Stats, cf *CoqFile, n int) {
 	g := &tgen{r: r, ops: map[string]int{}}
 	ctx := js_ast.MakeHelperContext(func(ref ast.Ref) bool { return ref.InnerIndex < nUnbound })
-	var exprItems, stmtItems, classItems []string
+	var exprItems, stmtItems, classItems, kptGeneral []string
 	for i := 0; i < n; i++ {
 		e, c := g.expr(r.Range(1, 4))
 		got := ctx.ExprCanBeRemovedIfUnused(e)
 		exprItems = append(exprItems, fmt.Sprintf("(%s, %s)", c, cb(got)))
+		kptGeneral = append(kptGeneral, fmt.Sprintf("(%s, %d)", c, js_ast.KnownPrimitiveType(e.Data)))
 		st.Note("classifier-expr", c, got)
 	}
 	for i := 0; i < n/3; i++ {
@@ -676,7 +677,9 @@ func tieClassifier(r *Rng, st *Stats, cf *CoqFile, n int) {
 	for k, v := range g.ops {
 		st.Histogram["tree:"+k] += v
 	}
+	tiePlain(r, st, cf, g, ctx, n)
 	cf.AddCases("expr_cases", "node * bool", "check_expr", exprItems)
+	cf.AddCases("kpt_general_cases", "node * Z", "check_kpt", kptGeneral)
 	cf.AddCases("stmts_cases", "bool * bool * list node * bool", "check_stmts", stmtItems)
 	cf.AddCases("class_cases", "node * bool", "check_class", classItems)
 }
